@@ -31,7 +31,7 @@ Record subapi_case := {
   sa_inm_other : list (str * N);              (* (another If-None-Match value, status): stale validators *)
   sa_head : list (bool * N);                  (* HEAD on a single-subscription URL: (the pair is listed, status) *)
   sa_tbl : tm_table;
-  sa_auth : list (option (list str) * str * N) }.   (* caller's subscribe claim (None = no token), URL, status *)
+  sa_auth : list (option (list str) * str * bool * N) }.   (* caller's subscribe claim (None = no token), URL, If-None-Match with the current validator, status *)
 
 Definition ids_of (l : list (str * str)) : list str := map doc_id l.
 
@@ -47,9 +47,9 @@ Definition subapi_ok (c : subapi_case) : bool :=
   (* whatever the method: an unknown subscription is never answered as if it existed (HEAD may be refused outright) *)
   forallb (fun p : bool * N => N.eqb (snd p) 405 || N.eqb (snd p) (if fst p then 200 else 404)) (sa_head c) &&
   forallb (fun a =>
-    let '(claim, u, st) := a in
+    let '(claim, u, inm, st) := a in
     let allowed := match claim with Some sels => can_receive (tmatch_of (sa_tbl c)) [u] sels | None => false end in
-    N.eqb st (if allowed then 200 else 401)) (sa_auth c).
+    N.eqb st (if allowed then (if (inm : bool) then 304 else 200) else 401)) (sa_auth c).
 
 (* every listed id routes back (through the router and QueryUnescape) to the pair it was built from *)
 Definition subapi_agree (c : subapi_case) : bool :=
